@@ -335,3 +335,29 @@ class Repo:
             why = folder.unfolded.get(name, 'not assigned at module level') if folder else 'import cycle'
             raise AnalysisError('cannot fold %s in %s: %s' % (name, rel, why))
         return env[name]
+
+
+def raw_param_text_ops(fn):
+    """[(node, message)]: operations that treat a bare parameter of `fn` as text and raise for a non-str argument (None, a number):
+    sep.join((p, ...)), p.upper() / p.strip() ..., p + 'x'.  '%s' % p, str(p), format and f-strings accept anything and are not listed."""
+    import ast as _ast
+    params = {a.arg for a in fn.args.args + fn.args.kwonlyargs + fn.args.posonlyargs} - {'self', 'cls'}
+    rebound = {n.id for n in _ast.walk(fn) if isinstance(n, _ast.Name) and isinstance(n.ctx, _ast.Store)}
+    raw = params - rebound
+    out = []
+    for n in _ast.walk(fn):
+        if isinstance(n, _ast.Call) and isinstance(n.func, _ast.Attribute):
+            if n.func.attr == 'join' and len(n.args) == 1:
+                a = n.args[0]
+                elts = a.elts if isinstance(a, (_ast.Tuple, _ast.List)) else ([a] if isinstance(a, _ast.Name) else [])
+                bad = [e.id for e in elts if isinstance(e, _ast.Name) and e.id in raw]
+                if bad:
+                    out.append((n, 'str.join over the raw argument(s) %s raises TypeError when one of them is not a str' % ', '.join(bad)))
+            elif isinstance(n.func.value, _ast.Name) and n.func.value.id in raw and n.func.attr in (
+                    'upper', 'lower', 'strip', 'lstrip', 'rstrip', 'replace', 'split', 'startswith', 'endswith', 'title', 'casefold', 'encode'):
+                out.append((n, '%s.%s() raises AttributeError when the argument is not a str' % (n.func.value.id, n.func.attr)))
+        if isinstance(n, _ast.BinOp) and isinstance(n.op, _ast.Add):
+            for a, b in ((n.left, n.right), (n.right, n.left)):
+                if isinstance(a, _ast.Name) and a.id in raw and isinstance(b, _ast.Constant) and isinstance(b.value, str):
+                    out.append((n, '%s + %r raises TypeError when the argument is not a str' % (a.id, b.value)))
+    return out
